@@ -10,6 +10,30 @@ sys.path.insert(0, os.path.dirname(os.path.abspath(__file__)))
 import vlib  # noqa: E402
 
 
+PURITY_GROUPS = {"C01": ["btree"], "C02": ["btree"], "C03": ["hash"], "C04": ["ring"], "C05": ["ring"], "C06": ["tree"],
+                 "C07": ["btree", "hash", "tree", "ring"], "C08": ["btree", "hash", "tree", "ring"], "C17": ["sem"],
+                 "C18": ["thread"]}
+PURITY_SRC = ["hash.c", "tree.c", "btree.c", "ring.c", "allocator.c", "status.c", "errno_status.c", "system.c",
+              "posix/sem_posix.c", "posix/thread_posix.c", "posix/system_posix.c"]
+
+
+def purity_probes(ctx, only=None):
+    """harness/purity_probe.c at -O2 against /repo's headers and sources: a declaration that promises the optimiser
+    more than the function keeps (pure/const on a function that reads mutable state or has an effect) shows as a
+    stale answer or a dropped call.  Returns the list of (probe name, verdict) lines."""
+    groups = PURITY_GROUPS.get(ctx.pid, [])
+    if not groups:
+        return []
+    exe = ctx.path("purity_probe")
+    ctx.cc([os.path.join(vlib.HARNESS, "purity_probe.c")] + ctx.repo_src(*PURITY_SRC), exe,
+           flags=["-O2", "-DNDEBUG"], sanitize=False)
+    rc, out, err = ctx.run_lines([exe] + groups, [], timeout=120)
+    res = [tuple(l.rsplit(" ", 1)) for l in out if " " in l]
+    if rc != 0:
+        res.append(("purity_probe(exit status %d)" % rc, "STALE"))
+    return [x for x in res if only is None or x[0] == only]
+
+
 def main():
     ap = argparse.ArgumentParser()
     ap.add_argument("pid")
@@ -30,7 +54,25 @@ def main():
             for prob in api_attrs.problems(vlib.REPO, files):
                 ctx.broken.append("api-attribute: " + prob)
                 ctx.notes.append("declaration promises more than recorded for the pinned tree: " + prob)
-        if a.replay:
+            try:
+                pr = purity_probes(ctx)
+                for name, verdict in pr:
+                    if verdict == "STALE":
+                        ctx.report_violation({"case": "purity-probe " + name,
+                                              "what": "an optimised caller (-O2) gets a stale answer from, or loses the effect "
+                                                      "of, this call: the declaration in the public header promises the "
+                                                      "compiler more than the function keeps",
+                                              "replay_cmd": "python3 tools/check.py %s --replay <this file>" % a.pid})
+                if pr:
+                    ctx.notes.append("purity probes at -O2: %d run, %d stale" % (len(pr), sum(v == "STALE" for _, v in pr)))
+            except vlib.BuildError as e:
+                ctx.notes.append("purity probe not built (the driver build reports API changes): " + str(e)[-200:])
+        if a.replay and str(__import__("json").load(open(a.replay)).get("case", "")).startswith("purity-probe "):
+            name = __import__("json").load(open(a.replay))["case"][len("purity-probe "):]
+            res = purity_probes(ctx, only=name)
+            print(res)
+            rc = 1 if any(v == "STALE" for _, v in res) else 0
+        elif a.replay:
             rc = vlib.replay(ctx, plug, a.replay) if not hasattr(plug, "replay") else plug.replay(ctx, a.replay)
         elif hasattr(plug, "check"):
             rc = plug.check(ctx)
@@ -47,6 +89,8 @@ def main():
         rc = 1
     finally:
         ctx.cleanup()
+    if ctx.violations and not a.replay:
+        rc = 1
     print("%s: %s (%.1fs)" % (a.pid, "OK" if rc == 0 else "FAILED", __import__("time").time() - ctx.t0))
     sys.exit(rc)
 
